@@ -79,10 +79,13 @@ def eofOracle : Oracle := { alloc := fun _ => true, io := fun _ => 0, nl := fun 
 def fullOracle : Oracle := { alloc := fun _ => true, io := fun _ => 1000000, nl := fun _ => false }
 
 /-- non-vacuity: the primitives move (a 300-byte read grows the buffer to 600 and lands at 300;
-    a 60000-byte read is refused by the cap and changes nothing; a jump past the cache re-anchors it) -/
+    a 60000-byte read grows it to the cap since the repair of psf_bump_header_allocation, a 110000-byte read is refused by the
+    cap and changes nothing; a jump past the cache re-anchors it) -/
 example : (step St.init (.read 300) fullOracle).1 = ⟨300, 300, 600⟩ ∧
-          (step St.init (.read 60000) fullOracle) = (St.init, [Ev.denied 120000]) ∧
-          (step ⟨24, 24, 256⟩ (.seek false 100000 1) fullOracle) = (⟨24, 24, 256⟩, [Ev.denied 200000, Ev.ioSeek 100000 1]) ∧
+          (step St.init (.read 60000) fullOracle).1 = ⟨60000, 60000, 102400⟩ ∧
+          (step St.init (.read 110000) fullOracle) = (St.init, [Ev.denied 220000]) ∧
+          (step ⟨24, 24, 256⟩ (.seek false 120000 1) fullOracle) = (⟨24, 24, 256⟩, [Ev.denied 240000, Ev.ioSeek 120000 1]) ∧
+          (step ⟨24, 24, 256⟩ (.seek false 100000 1) fullOracle).1 = ⟨100024, 100024, 102400⟩ ∧
           (step ⟨24, 24, 256⟩ (.gets 10) eofOracle).1 = ⟨24, 24, 256⟩ := by decide
 
 /-- The hypotheses are forced, not convenient: with a negative size header_read's memcpy leaves the
@@ -95,6 +98,12 @@ theorem hdr_args_necessary :
     ¬ HeaderCache.Inv (step St.init (.seek false (-1) 0) fullOracle).1 ∧
     (¬ ∀ e ∈ (step (step St.init (.seek false (-8) 0) fullOracle).1 (.read 4) fullOracle).2,
         e.inBounds (step (step St.init (.seek false (-8) 0) fullOracle).1 (.read 4) fullOracle).1.len) := by decide
+
+/-- the allocation rule before the repair refused a request as soon as its double passed the cap, although the bytes the
+    caller was about to use fitted: a 60000-byte read at offset 0 was denied (C13-header-cache, first half) -/
+theorem bump_denied_old_rule :
+    bumpOld St.init 60000 true = (St.init, true, [Ev.denied 120000]) ∧ (bump St.init 60000 true).1 = ⟨0, 0, 102400⟩ ∧
+    (bump St.init 60000 true).2.1 = false := by decide
 
 /-- the C computes these quantities in 64-bit integers; with `int` arguments nothing can wrap, so the
     mathematical integers of the model are the C values -/
